@@ -10,13 +10,16 @@ import (
 )
 
 type scripted struct {
-	vals  []int
-	calls int
+	vals   []int
+	calls  int
+	cyclic bool
 }
 
 func (s *scripted) next() int {
 	v := 0
-	if s.calls < len(s.vals) {
+	if s.cyclic && len(s.vals) > 0 {
+		v = s.vals[s.calls%len(s.vals)]
+	} else if s.calls < len(s.vals) {
 		v = s.vals[s.calls]
 	}
 	s.calls++
@@ -43,7 +46,7 @@ func init() {
 	})
 	// distsum regular <intervalNs> <cycles> <rates>  ->  <evals> <sum:min:max,…>
 	register("distsum", func(a []string) string {
-		rates := &scripted{vals: parseInts(a[3])}
+		rates := &scripted{vals: parseInts(a[3]), cyclic: true}
 		ivIn := time.Duration(atoi64(a[1]))
 		iv, fn, err := api.NewDistribution(api.DistributionType(a[0]), ivIn,
 			func(time.Time) int { return rates.next() }, nil)
